@@ -412,6 +412,11 @@ class Evaluator:
             if isinstance(lit, ast.UnaryOp) and isinstance(lit.op, ast.USub) and isinstance(
                     lit.operand, ast.Constant) and isinstance(lit.operand.value, (int, float)):
                 return c(-lit.operand.value)
+            # NAME = operator.attrgetter("field"): the getter itself
+            if isinstance(lit, ast.Call) and len(lit.args) == 1 and not lit.keywords \
+                    and isinstance(lit.args[0], ast.Constant) and isinstance(lit.args[0].value, str) \
+                    and ast.unparse(lit.func).endswith("attrgetter"):
+                return ("call", ("g", "operator.attrgetter"), (c(lit.args[0].value),), ())
         if mi is not None and nm in mi.assigns and q not in self.repo.functions:
             tgt = dotted(mi.assigns[nm])
             if tgt:
@@ -644,6 +649,25 @@ class Evaluator:
                 kwargs.append((kw.arg, self.expr(kw.value)))
         args = tuple(self._fn_value(a) for a in args)
         kwargs = [(k, self._fn_value(v)) for k, v in kwargs]
+        # f(*(a, b)) is f(a, b): unpacking a literal display passes its items
+        if any(a[0] == "star" and a[1][0] in ("tuple", "list") and len(a[1]) == 2 for a in args):
+            flat = []
+            for a in args:
+                if a[0] == "star" and a[1][0] in ("tuple", "list") and len(a[1]) == 2:
+                    flat.extend(a[1][1])
+                else:
+                    flat.append(a)
+            args = tuple(flat)
+        # getattr(x, "name") and operator.attrgetter("name")(x) are x.name
+        if f in (("n", "getattr"), ("g", "getattr")) and len(args) == 2 and not kwargs \
+                and args[1][0] == "c" and isinstance(args[1][1], str):
+            loc = ("a", args[0], args[1][1])
+            return self.env.heap.get(loc, loc)
+        if f[0] == "call" and fn_name(f[1]) == "operator.attrgetter" and len(f[2]) == 1 \
+                and f[2][0][0] == "c" and isinstance(f[2][0][1], str) and len(args) == 1 \
+                and not kwargs and "." not in f[2][0][1]:
+            loc = ("a", args[0], f[2][0][1])
+            return self.env.heap.get(loc, loc)
         if f[0] == "phi" and len(f) == 4 and f[1][0] != "path":
             # calling a conditionally chosen function: (f if c else g)(x) is
             # f(x) if c else g(x) -- the choice may be made before or around the call
